@@ -415,7 +415,7 @@ func (r *rewriter) rewrite() {
 		if sel, ok := n.(*ast.SelectorExpr); ok {
 			if id, ok := sel.X.(*ast.Ident); ok && id.Name == "sync" && r.stepAll {
 				switch sel.Sel.Name {
-				case "Mutex", "RWMutex", "WaitGroup", "Once", "Locker", "Pool", "Map":
+				case "Mutex", "RWMutex", "WaitGroup", "Once", "Locker", "Pool", "Map", "Cond", "NewCond":
 				default:
 					fatal("%s: sync.%s is not modelled by engine S", r.pos(n), sel.Sel.Name)
 				}
